@@ -49,7 +49,7 @@ def mk_policy(kind: str, env_name: str, ctor: Optional[dict] = None):
     if kind == "ham":
         from rl4co.models.zoo.ham import HeterogeneousAttentionModelPolicy
 
-        return HeterogeneousAttentionModelPolicy(env_name=env_name, **SMALL)
+        return HeterogeneousAttentionModelPolicy(env_name=env_name, **SMALL, **(ctor or {}))
     if kind == "matnet":
         from rl4co.models.zoo.matnet import MatNetPolicy
 
@@ -61,7 +61,7 @@ def mk_policy(kind: str, env_name: str, ctor: Optional[dict] = None):
     if kind == "symnco":
         from rl4co.models.zoo.symnco import SymNCOPolicy
 
-        return SymNCOPolicy(env_name=env_name, **SMALL)
+        return SymNCOPolicy(env_name=env_name, **SMALL, **(ctor or {}))
     if kind == "l2d":
         from rl4co.models.zoo.l2d import L2DPolicy
 
@@ -125,14 +125,73 @@ def draw_ctor(rng) -> dict:
     return o
 
 
-def expected_opts(pol, opts: dict) -> dict:
-    return {"temperature": opts.get("temperature", pol.temperature), "top_p": opts.get("top_p", 0.0), "top_k": opts.get("top_k", 0),
-            "tanh_clipping": opts.get("tanh_clipping", pol.tanh_clipping), "mask_logits": opts.get("mask_logits", pol.mask_logits)}
+def expected_opts(pol, opts: dict, ctor: Optional[dict] = None) -> dict:
+    """what was REQUESTED: a call kwarg, else the constructor argument the harness passed, else the class default (the policy's
+    own attributes are only consulted for defaults the harness did not set: `mask_logits` defaults to True for every bundled policy)"""
+    c = ctor or {}
+    return {"temperature": opts.get("temperature", c.get("temperature", pol.temperature)), "top_p": opts.get("top_p", 0.0), "top_k": opts.get("top_k", 0),
+            "tanh_clipping": opts.get("tanh_clipping", c.get("tanh_clipping", pol.tanh_clipping)),
+            "mask_logits": opts.get("mask_logits", c.get("mask_logits", True))}
 
 
-def check_opts(ctx, tag: str, phase: str, tr: Trace, pol, opts: dict) -> bool:
+def ref_logprobs(logits: torch.Tensor, mask: Optional[torch.Tensor], o: dict) -> torch.Tensor:
+    """independent reference of the masked, normalised step distribution (no top-k / top-p): tanh clip → mask → /T → log-softmax"""
+    x = logits.clone().to(torch.float32)
+    if o["tanh_clipping"] and o["tanh_clipping"] > 0:
+        x = torch.tanh(x) * o["tanh_clipping"]
+    if o["mask_logits"] and mask is not None:
+        x = x.masked_fill(~mask, float("-inf"))
+    x = x / o["temperature"]
+    return torch.log_softmax(x, dim=-1)
+
+
+def judge_policy_steps(ctx, tag: str, tr: Trace, want: dict, sel: Optional[List[torch.Tensor]] = None, prefix: str = "") -> bool:
+    """C10 / C11 / C01 judged on the REAL policy, per step, on the recorded distribution (the output of process_logits) and the
+    recorded environment mask: masked actions have probability exactly 0, the distribution is normalised, it is the masked
+    softmax of the decoder's logits under the requested options, and the action emitted is offered by the mask (so the episode
+    is a mask-confined run, which the environment families' C01 theorems turn into a feasible solution)."""
+    if not want.get("mask_logits", True):
+        return True
+    filt = want.get("top_k", 0) > 0 or want.get("top_p", 0.0) > 0
+    sel = sel if sel is not None else [c["selected"] for c in tr.sel_calls]
+    for t, lp in enumerate(tr.lp):
+        m = tr.amask[t]
+        if m is None:
+            ctx.violation(prefix + "policy-logits-not-masked", "the policy hands no mask to process_logits although masking of the output logits was requested "
+                          "(constructor / call option mask_logits=True): infeasible actions get probability mass", {"case": tag, "step": t})
+            return False
+        bad = torch.isfinite(lp) & ~m
+        if bool(bad.any()):
+            r, a = [int(v) for v in bad.nonzero()[0]]
+            ctx.violation(prefix + "policy-masked-action-has-mass", "a masked (infeasible) action has non-zero probability in the policy's step distribution",
+                          {"case": tag, "step": t, "row": r, "action": a, "logp": float(lp[r, a]), "mask_row": m[r].int().tolist()})
+            return False
+        z = torch.logsumexp(lp, dim=-1)
+        if bool((z.abs() > 1e-4).any()):
+            ctx.violation(prefix + "policy-step-distribution-not-normalised", "a step distribution of the policy does not sum to one", {"case": tag, "step": t, "logsumexp": tl(z)})
+            return False
+        if t < len(sel) and sel[t] is not None and sel[t].shape[0] == m.shape[0]:
+            ok = m.gather(1, sel[t].reshape(-1, 1)).reshape(-1)
+            if not bool(ok.all()):
+                r = int((~ok).nonzero()[0])
+                ctx.violation(prefix + "policy-infeasible-action-emitted", "the policy emitted an action its environment mask does not offer (the episode is not a mask-confined run)",
+                              {"case": tag, "step": t, "row": r, "action": int(sel[t][r]), "mask_row": m[r].int().tolist()})
+                return False
+        if not filt and t < len(tr.logits_in):
+            ref = ref_logprobs(tr.logits_in[t], m, want)
+            fin = torch.isfinite(ref)
+            if not torch.equal(fin, torch.isfinite(lp)) or (bool(fin.any()) and float((ref[fin] - lp[fin]).abs().max()) > 1e-4):
+                ctx.violation(prefix + "step-distribution-not-masked-softmax-of-logits",
+                              "the step distribution the log-likelihood is gathered from is not the masked, normalised softmax of the decoder's logits under the requested "
+                              "options (temperature / tanh clipping / mask_logits)", {"case": tag, "step": t, "requested": want})
+                return False
+    ctx.count("policy-steps-judged(C10/C01 on the recorded distribution)")
+    return True
+
+
+def check_opts(ctx, tag: str, phase: str, tr: Trace, pol, opts: dict, ctor: Optional[dict] = None) -> bool:
     """every process_logits call of the decode saw the options that were requested (policy-level or call-level)"""
-    want = expected_opts(pol, opts)
+    want = expected_opts(pol, opts, ctor)
     for t, got in enumerate(tr.pl_opts):
         bad = {k: (want[k], got[k]) for k in want if got[k] != want[k] and not (k == "top_k" and got[k] == min(want[k], tr.lp[t].shape[-1]))}
         if bad:
@@ -315,8 +374,13 @@ class Sub:
 DECODE_TYPES = ["greedy", "sampling", "multistart_greedy", "multistart_sampling"]
 
 
+SAFETY_CAP = 300  # `max_steps` handed to every policy call of the harness: far above every episode length of the sweeps, and it
+# keeps a run finite when the code under test stops masking (an unmasked TSP policy may never finish)
+
+
 def run_policy(pol, env, td, **kw):
     """Run the real policy with the choke points wrapped.  Returns (trace, out, exception-or-None)."""
+    kw.setdefault("max_steps", SAFETY_CAP)
     rec = Recorder(env)
     out, err = None, None
     with torch.no_grad():
@@ -500,7 +564,11 @@ def c11_case(ctx, kind, env_name, n, B, dt, *, store_all, return_sum, select_bes
         if max_steps is not None:
             ctx.count("max-steps-run-raised")
             return None
-        ctx.violation("decode-raised:" + type(e).__name__, f"policy call raised {type(e).__name__}: {short(e, 200)}", {"case": tag})
+        key = "decode-raised:" + type(e).__name__
+        if ctor and not from_checker(e):
+            # a legal constructor option makes the policy crash: keyed by policy / env / batch size / the options given
+            key = (f"policy-ctor-raised:{type(e).__name__}:{kind}/{env_name}:B{B}:" + ",".join(f"{k}={v}" for k, v in sorted(ctor.items())))
+        ctx.violation(key, f"policy call raised {type(e).__name__}: {short(e, 200)}", {"case": tag})
         return None
     exp_mask = None
     if inj is not None:
@@ -509,11 +577,17 @@ def c11_case(ctx, kind, env_name, n, B, dt, *, store_all, return_sum, select_bes
         if got is None or not torch.equal(got, exp_mask):
             ctx.violation("ll-mask-not-applied", "td['mask'] (steps flagged irrelevant) does not reach get_log_likelihood",
                           {"case": tag, "expected": tl(exp_mask), "got": tl(got)})
-    check_opts(ctx, tag, "rollout", tr, pol, opts)
+    check_opts(ctx, tag, "rollout", tr, pol, opts, ctor)
+    if not getattr(tr, "beam", None):
+        judge_policy_steps(ctx, tag, tr, expected_opts(pol, opts, ctor))
     if "multistart" in dt:
         check_start_rule(ctx, tag, "multistart-forced-start-not-the-rule", tr, env, td, custom_start)
-    line, meta = decode_request(tr, store_all=store_all, max_steps=(1_000_000 if max_steps is None else max_steps), llmask=exp_mask)
+    line, meta = decode_request(tr, store_all=store_all, max_steps=(SAFETY_CAP if max_steps is None else max_steps), llmask=exp_mask)
     model = ask_decode(ctx, line, meta)
+    if max_steps is None and model["steps"] > SAFETY_CAP and not model["alldone"]:
+        ctx.violation("decode-loop-hit-safety-cap", f"the decoding loop did not finish within {SAFETY_CAP} passes (it left through the max_steps break with unfinished rows)",
+                      {"case": tag, "first_actions": [a[:12] for a in model["acts"][:2]]})
+        return None
     picked = None
     S = meta["B"] // B  # replication factor actually used (num_starts / num_samples / the environment's default)
     if select_best and S > 1:
@@ -550,12 +624,12 @@ def c11_case(ctx, kind, env_name, n, B, dt, *, store_all, return_sum, select_bes
                     "row0_sum(Spec.specLL)": model["spec"][0],
                     "row0_returned_log_likelihood": (float(out["log_likelihood"][0]) if return_sum else [round(float(v), 6) for v in out["log_likelihood"][0].tolist()])
                     if picked is None else "best-selected rows: " + str(picked)}, cap=4)
-    return tr, out, model, meta, td, env, pol, tag, rng_state, (kind, env_name), opts
+    return tr, out, model, meta, td, env, pol, tag, rng_state, (kind, env_name), opts, ctor
 
 
 def c11_roundtrip(ctx, res):
     """evaluate round trip of a (non multi-start) rollout: feed the returned actions back."""
-    tr, out, model, meta, td, env, pol, tag, rng_state, pair, opts = res
+    tr, out, model, meta, td, env, pol, tag, rng_state, pair, opts, ctor = res
     tag = tag + "/evaluate"
     acts = out["actions"]
 
@@ -590,7 +664,7 @@ def c11_roundtrip(ctx, res):
                 tr2, out2, e2 = tr3, out3, None
         if e2 is not None:
             raise e2
-        if not check_opts(ctx, tag, "evaluate", tr2, pol, opts):
+        if not check_opts(ctx, tag, "evaluate", tr2, pol, opts, ctor):
             return
         if max_dev(tr, tr2) > 1e-6:
             # does the network consume random numbers?  replay with the generator state of the rollout
@@ -613,7 +687,7 @@ def c11_roundtrip(ctx, res):
         env.check_solution = keep_chk
     ctx.count("evaluate")
     # model of evaluate mode on the evaluate trace (actions come from `actions[..., step]`)
-    line, meta2 = decode_request(tr2, store_all=True, max_steps=1_000_000, eval_actions=acts,
+    line, meta2 = decode_request(tr2, store_all=True, max_steps=SAFETY_CAP, eval_actions=acts,
                                  llmask=(td["mask"] if "mask" in td.keys() else None))
     model2 = ask_decode(ctx, line, meta2)
     compare_decode(ctx, tag, tr2, out2, model2, meta2, store_all=True, return_sum=False)
@@ -678,7 +752,7 @@ def c11_replica_teacher_forcing(ctx, res):
     the batch nor forces a start, so encoder caches are not re-grouped there; a forced first move is scored by the
     policy in the reference and skipped in the comparison (it counts 0 in the rollout).  A row whose log-probs were
     computed against another instance's cache / another copy's state shows up here as `replica-logp-not-policy`."""
-    tr, out, model, meta, td, env, pol, tag, rng_state, pair, opts = res
+    tr, out, model, meta, td, env, pol, tag, rng_state, pair, opts, ctor = res
     B0 = td.batch_size[0]
     S = meta["B"] // B0
     forced = 1 if meta["multi"] else 0
@@ -720,7 +794,7 @@ def c11_replica_teacher_forcing(ctx, res):
                 ctx.violation("replica-rescoring-raised:" + type(e2).__name__, f"teacher forcing of a multi-start / multi-sample row raised: {short(e2, 200)}",
                               {"case": tag, "copy": sl})
                 return
-            check_opts(ctx, tag, "evaluate", tr2, pol, opts)
+            check_opts(ctx, tag, "evaluate", tr2, pol, opts, ctor)
             tf = out2["log_likelihood"]
             T2 = tf.shape[1]
             for j, i in enumerate(rows):
@@ -1156,9 +1230,158 @@ def run_stepwise(ctx):
     stepwise_ppo_probe(ctx)
 
 
+# ---- policy-level sweep over CONSTRUCTOR options of the attention-model family -------------------------------------------------
+
+AM_FAMILY = [("am", "tsp"), ("am", "cvrp"), ("ham", "pdp"), ("symnco", "tsp")]  # AttentionModelPolicy and the subclasses that forward kwargs (POMO uses AttentionModelPolicy)
+AM_CTORS = [
+    {"mask_inner": False},
+    {"mask_inner": False, "tanh_clipping": 0, "temperature": 0.5},
+    {"tanh_clipping": 0},
+    {"temperature": 0.5, "check_nan": False},
+    {"use_graph_context": False},
+    {"out_bias_pointer_attn": True},
+    {"linear_bias_decoder": True, "normalization": "instance", "mask_inner": False},
+    {"mask_logits": True, "mask_inner": False, "check_nan": False},
+]
+
+
+def ctor_sweep(ctx, quick_n: int, full: bool):
+    """Every legal constructor option of the AM family that touches decoding, each decoded greedy + sampling with the evaluate
+    round trip; every step is judged on the recorded distribution (`judge_policy_steps`, inside `c11_case`)."""
+    rng = ctx.rng
+    for kind, env_name in AM_FAMILY:
+        ctors = AM_CTORS if full else [AM_CTORS[0]] + rng.sample(AM_CTORS[1:], quick_n - 1)
+        for ctor in ctors:
+            for dt in ("greedy", "sampling"):
+                res = c11_case(ctx, kind, env_name, rng.choice([4, 5, 6]), rng.choice([1, 2, 3]), dt, store_all=rng.random() < 0.5,
+                               return_sum=rng.random() < 0.5, ctor=ctor)
+                if res is not None:
+                    c11_roundtrip(ctx, res)
+            if rng.random() < 0.5:
+                res = c11_case(ctx, kind, env_name, rng.choice([4, 5]), 2, "multistart_sampling", store_all=False, return_sum=False, S=2, ctor=ctor)
+                if res is not None:
+                    c11_replica_teacher_forcing(ctx, res)
+
+
+# ---- multi-stage FFSP policy (its own forward loop over per-stage decoders) -------------------------------------------------------
+
+
+def ffsp_multistage_case(ctx, num_stage: int, num_machine: int, num_job: int, B: int, decode_type: str, num_starts: int):
+    """`MultiStageFFSPPolicy.forward`: at every step each stage decoder proposes (action, log-prob); the executed action must be the
+    proposal of the decoder of the stage the instance is in WHEN THE ACTION IS TAKEN, and the returned log-likelihood the sum of the
+    log-probs of the executed actions under exactly those distributions.  The policy draws a random one-hot embedding per forward
+    pass (known finding), so nothing is re-run: the per-stage step distributions are recorded during the one forward pass
+    (hook on the decoders' `process_logits`) together with `stage_idx` before every `env.step`."""
+    import rl4co.models.zoo.matnet.decoder as MD
+    from rl4co.envs import FFSPEnv
+    from rl4co.models.zoo.matnet.policy import MultiStageFFSPPolicy
+
+    torch.manual_seed(ctx.rng.getrandbits(31))
+    tag = f"multistage-ffsp/stages{num_stage}/machines{num_machine}/jobs{num_job}/B{B}/{decode_type}/starts{num_starts}"
+    ctx.count(f"ffsp-multistage:stages={num_stage}")
+    try:
+        env = FFSPEnv(generator_params=dict(num_stage=num_stage, num_machine=num_machine, num_job=num_job, flatten_stages=False))
+        pol = MultiStageFFSPPolicy(stage_cnt=num_stage, embed_dim=32, num_heads=4, num_encoder_layers=1, feedforward_hidden=64,
+                                   test_decode_type=decode_type).eval()
+        td = env.reset(batch_size=[B])
+    except Exception as e:  # noqa: BLE001
+        ctx.note(f"MultiStageFFSPPolicy / FFSPEnv(flatten_stages=False) cannot be constructed offline: {short(e, 120)}")
+        ctx.count("ffsp-multistage-not-constructible")
+        return
+    dists, stage_log, done_log, props = [], [], [], []
+    orig_pl = MD.process_logits
+
+    def pl(logits, mask=None, *a, **k):
+        out = orig_pl(logits, mask, *a, **k)
+        dists.append((out.detach().clone(), None if mask is None else mask.detach().clone()))
+        return out
+
+    hooks = [dec.register_forward_hook(lambda mod, inp, o, s_=s_: props.append((s_, o[0].detach().clone(), o[1].detach().clone())))
+             for s_, dec in enumerate(pol.decoders)]
+    bound = env.step
+
+    def env_step(td_):
+        stage_log.append(td_["stage_idx"].detach().clone())
+        res = bound(td_)
+        done_log.append(res["next"]["done"].reshape(-1).detach().clone())
+        return res
+
+    MD.process_logits = pl
+    env.__dict__["step"] = env_step
+    try:
+        with torch.no_grad():
+            out = pol(td.clone(), env, phase="test", num_starts=num_starts, return_actions=True)
+    except Exception as e:  # noqa: BLE001
+        ctx.violation("multistage-ffsp-raised:" + type(e).__name__, f"MultiStageFFSPPolicy.forward raised: {short(e, 200)}", {"case": tag})
+        return
+    finally:
+        MD.process_logits = orig_pl
+        env.__dict__.pop("step", None)
+        for h in hooks:
+            h.remove()
+    T = len(stage_log)
+    acts = out["actions"]
+    R = acts.shape[0]
+    if len(dists) != T * num_stage or acts.shape[1] != T:
+        ctx.disagreement("multistage ffsp: recorded calls do not cover the steps", {"case": tag, "dists": len(dists), "T": T, "stages": num_stage})
+        return
+    # the distribution of the state the action was taken in: row r at step t uses the decoder of stage_log[t][r]
+    lp_rows, masks = [], []
+    for t in range(T):
+        M = torch.stack([dists[t * num_stage + int(stage_log[t][r])][0][r] for r in range(R)])
+        K = torch.stack([dists[t * num_stage + int(stage_log[t][r])][1][r] for r in range(R)])
+        lp_rows.append(M)
+        masks.append(K)
+        # the executed action is the proposal of that decoder
+        for r in range(R):
+            prop = props[t * num_stage + int(stage_log[t][r])]
+            if int(prop[1][r]) != int(acts[r][t]):
+                ctx.violation("multistage-ffsp-action-not-stage-proposal", "the executed action is not the proposal of the decoder of the stage the instance is in",
+                              {"case": tag, "step": t, "row": r, "stage": int(stage_log[t][r]), "executed": int(acts[r][t]), "proposal": int(prop[1][r])})
+                return
+    tr = Trace()
+    N = lp_rows[0].shape[-1]
+    tr.pre = {"start": None, "start_lp": None, "n_forced": 0, "done": torch.zeros(R, dtype=torch.bool), "num_starts": 0, "n_env_steps": 0, "B": R, "N": N}
+    tr.steps = [{} for _ in range(T)]
+    tr.env_done = done_log
+    tr.sel_calls = [{"selected": acts[:, t]} for t in range(T)]
+    tr.lp, tr.amask = lp_rows, masks
+    line, meta = decode_request(tr, store_all=False, max_steps=1_000_000)
+    model = ask_decode(ctx, line, meta)
+    switches = sum(int((stage_log[t] != stage_log[t + 1]).sum()) for t in range(T - 1))
+    ctx.count("ffsp-multistage:stage-switches-between-consecutive-steps", switches)
+    for r in range(R):
+        c = float(out["log_likelihood"][r])
+        if not abs(c - model["spec"][r]) <= sum_tol(model["vals"][r]):
+            ctx.violation("ll-not-sum-of-gathered-logprobs",
+                          "MultiStageFFSPPolicy: returned log_likelihood differs from Σ_t log p_t^{stage(t)}(a_t), the log-probs of the executed actions under the "
+                          "distribution of the stage decoder of the state each action was taken in (recorded during the same forward pass)",
+                          {"case": tag, "row": r, "code": c, "spec": model["spec"][r], "stages_per_step": [int(stage_log[t][r]) for t in range(T)],
+                           "actions": tl(acts[r]), "per_step": model["vals"][r]})
+            return
+    judge_policy_steps(ctx, tag, tr, {"mask_logits": True, "top_k": 0, "top_p": 0.0}, sel=[acts[:, t] for t in range(T)])
+    ctx.case((tag, tuple(map(tuple, tl(acts)))), nontrivial=T > 1)
+
+
+def run_ffsp_multistage(ctx):
+    rng = ctx.rng
+    for ns in (1, 2, 3):
+        for _ in range(ctx.budget(2, 8)):
+            ffsp_multistage_case(ctx, ns, 2, rng.choice([3, 4]), rng.choice([1, 2, 3]), rng.choice(["sampling", "greedy"]), rng.choice([1, 1, 2]))
+
+
+def run_c10_policy(ctx):
+    """C10 judged on the REAL policies (not on process_logits in isolation): constructor options of the AM family × greedy / sampling;
+    masked actions have probability exactly 0, distributions are normalised masked softmaxes of the decoder logits, emitted actions are unmasked."""
+    ctor_sweep(ctx, quick_n=3, full=ctx.tier == "thorough" or ctx.searching)
+    run_ffsp_multistage(ctx)
+
+
 def run_c11(ctx):
     rng = ctx.rng
     trainer_scope_probe(ctx)
+    ctor_sweep(ctx, quick_n=3, full=ctx.tier == "thorough" or ctx.searching)
+    run_ffsp_multistage(ctx)
     run_stepwise(ctx)
     ppo_probe(ctx)
     gll_direct(ctx, ctx.budget(60, 3000))
@@ -1595,6 +1818,7 @@ C11_THEOREMS = [
     Theorem("Rl4co.Decode.selectBest_factor", "proved", "translator tie: extracted unbatchify factor `self.num_starts`"),
     Theorem("Rl4co.Decode.calculateEntropy_eq", "proved", "translator tie: extracted leading minus of calculate_entropy"),
     Theorem("Rl4co.Decode.ppoRatio_eq", "proved", "translator tie: extracted `ll.sum(-1) - old` (new minus old) of the PPO ratio; the exponent the harness compares on every mini-batch"),
+    Theorem("Rl4co.Decode.policyMaskLogits_eq", "proved", "translator tie: AttentionModelPolicy passes its mask_logits / temperature / tanh_clipping constructor arguments through unchanged (extracted)"),
     Theorem("Rl4co.Decode.stepwise_opts_eq", "proved", "translator tie: the process_logits calls of L2DPolicy4PPO.act and .evaluate receive the same option arguments (extracted)"),
     Theorem("Rl4co.Decode.stepwise_roundtrip", "proved",
             "stepwise PPO policies: ∀ network/process_logits, state, action: evaluate recomputes the log-prob act stored, returns the entropy of the distribution act sampled from, ratio = 1"),
@@ -1666,6 +1890,14 @@ register(Unit("C02", "loglik", run_c02, drivers=["drv_loglik"], lean_modules=["R
               assumptions=[ORACLE_NOTE, "the decoding-loop clause of C02 is proved for CVRP and TSP by instantiating Decode.loop_terminates with the families' own "
                            "steps_le / mask_nonempty / done_stable / run_length theorems; for the other families the loop theorem is available with the step bound as a hypothesis",
                            "the selector hypothesis (only mask-admitted actions are emitted) is C10's"]))
+register(Unit("C10", "loglik_policy", run_c10_policy, drivers=["drv_loglik"], lean_modules=["Rl4co.Props.C11.LoglikStepwise"],
+              theorems=[Theorem("Rl4co.Decode.policyMaskLogits_eq", "proved",
+                                "translator tie: the mask_logits flag AttentionModelPolicy hands to the decoding machinery is its constructor argument itself (not combined with mask_inner)")],
+              assumptions=[ORACLE_NOTE, "policy-level C10: the step distributions recorded from the real policies (output of process_logits, with the decoder's raw logits and the "
+                           "environment mask) are judged directly — masked ⇒ probability exactly 0, normalised, equal to the masked softmax of the logits under the requested "
+                           "constructor / call options, emitted action unmasked; the function-level theorems about process_logits are fam-logits' C10 unit",
+                           "C01 at policy level: every emitted action is offered by the recorded mask (mask-confined run ⇒ feasible by the environment families' feasible_of_run) "
+                           "and the environment's own checker runs inside get_reward"]))
 register(Unit("C13", "loglik", run_c13, drivers=["drv_loglik"], lean_modules=["Rl4co.Props.C13.Loglik", "Rl4co.Props.C13.LoglikFindings", "Rl4co.Props.C13.LoglikStart"], theorems=C13_THEOREMS,
               assumptions=[ORACLE_NOTE, GLUE_NOTE, DET_NOTE, COVER_NOTE,
                            "the property is judged on the real outcome before internals are compared: kept sets against scores re-accumulated independently "
